@@ -139,6 +139,15 @@ def _case_reflection(case):
     if layout == "single":
         hp = H.Hyperplane(ws[0].copy())
         pds = [np.asarray(hp.proj_data, dtype=float)]
+        if case.get("refeed"):
+            # the documented full data (spacelike row + ideal rows) handed back to the constructor with every row
+            # rescaled: the same wall, now with a non-unit normal row and rescaled ideal points
+            sn, si = case["refeed"]
+            data = pds[0].copy()
+            data[0] *= sn
+            data[1:] *= np.array([si * (1.0 + 0.5 * k) for k in range(n)])[:, None]
+            hp = H.Hyperplane(data.copy())
+            pds = [np.asarray(hp.proj_data, dtype=float)]
     else:
         hp = H.Hyperplane(np.array([[w] for w in ws]))
         pd = np.asarray(hp.proj_data, dtype=float)
@@ -176,6 +185,18 @@ def _case_reflection(case):
         if prob:
             v.append(_V(prob[0].replace("reflection/from_reflection/", "from_reflection/") if "null-kernel" not in prob[0] else prob[0],
                         "from_reflection(reflection in %s) [%s]: %s" % (_f(w), layout, prob[1])))
+    # the documented ndarray form of the argument (a matrix acting on column vectors, as numpy's eig expects)
+    if not v:
+        h3 = H.Hyperplane.from_reflection(np.swapaxes(np.asarray(R.matrix, dtype=float), -1, -2).copy())
+        t += 1
+        pd3 = np.asarray(h3.proj_data, dtype=float)
+        pd3 = [pd3] if layout == "single" else ([pd3[i] for i in range(len(ws))] if pd3.ndim == 3 and pd3.shape[0] == len(ws) else None)
+        if pd3 is None:
+            return {"v": [_V("from_reflection/ndarray/shape", "composite from_reflection(ndarray) data has shape %r" % (np.shape(h3.proj_data),))], "t": t}
+        for w, p3 in zip(ws, pd3):
+            prob = wall_problem(p3, w, "from_reflection")
+            if prob:
+                v.append(_V("from_reflection/ndarray/" + prob[0].split("/")[-1], "from_reflection(matrix of the reflection in %s, as an ndarray) [%s]: %s" % (_f(w), layout, prob[1])))
     if n == 2:
         g = H.Geodesic.from_reflection(R)
         t += 1
@@ -487,6 +508,9 @@ def reflection_cases(n, values, ngen, seed):
         yield {"n": n, "layout": "single", "normals": [w]}
     for i in range(len(ws)):
         yield {"n": n, "layout": "composite", "normals": [ws[i], ws[(i + 1) % len(ws)]]}
+    for i in range(0, len(ws), max(1, SCALED_STRIDE[n] // 2)):
+        for sn, si in ((2.0, 1.0), (3.0, 3.0), (-0.5, 2.0), (1.0, -4.0)):
+            yield {"n": n, "layout": "single", "normals": [ws[i]], "refeed": [sn, si]}
     L = len(NORMAL_SCALES)
     for i in range(0, len(ws), SCALED_STRIDE[n]):
         for j, s in enumerate(NORMAL_SCALES):
@@ -532,6 +556,65 @@ def fixed_cases(q, seed):
         for i, g in enumerate(P):
             for kind, param in std:
                 yield {"n": n, "g": g, "kind": kind, "param": param, "probe": P[(i + 3) % len(P)]}
+
+
+# ------------------------------------------------------------------------------------------
+# exact integer isometries (elements of O(n,1)(Z)) in several dtype packagings
+# ------------------------------------------------------------------------------------------
+INT_GENS = {2: [[[3, 2, 2], [2, 1, 2], [2, 2, 1]], [[1, 0, 0], [0, 0, 1], [0, 1, 0]], [[1, 0, 0], [0, -1, 0], [0, 0, 1]],
+                [[1, 0, 0], [0, 0, -1], [0, 1, 0]]],
+            3: [[[3, 2, 2, 0], [2, 1, 2, 0], [2, 2, 1, 0], [0, 0, 0, 1]], [[1, 0, 0, 0], [0, 0, 1, 0], [0, 0, 0, 1], [0, 1, 0, 0]],
+                [[1, 0, 0, 0], [0, -1, 0, 0], [0, 0, 1, 0], [0, 0, 0, 1]], [[2, 1, 1, 1], [-1, 0, -1, -1], [-1, -1, 0, -1], [-1, -1, -1, 0]]]}
+INT_DTYPES = ["int64", "int32", "list-int", "tuple-int"]   # float32 matrices: eigenvectors null only to 1e-7, beyond the library's absolute 1e-8 light-cone threshold - not demanded
+
+
+def int_isometries(n, maxlen):
+    """All distinct products of at most maxlen generators (row convention: x -> x M), with their type decided
+    on the float copy: loxodromic = real eigenvalues lambda > 1.05 > 1/lambda, all others of modulus 1."""
+    gens = [np.array(g, dtype=np.int64) for g in INT_GENS[n]]
+    J = np.diag([-1] + [1] * n)
+    for g in gens:
+        assert np.array_equal(g @ J @ g.T, J), g
+    seen, out, frontier = set(), [], [np.eye(n + 1, dtype=np.int64)]
+    for _ in range(maxlen):
+        nxt = []
+        for M in frontier:
+            for g in gens:
+                P = M @ g
+                k = P.tobytes()
+                if k in seen or np.max(np.abs(P)) > 10 ** 6:
+                    continue
+                seen.add(k)
+                nxt.append(P)
+                w = np.linalg.eigvals(P.astype(float))
+                big = [x for x in w if abs(x) > 1.05]
+                small = [x for x in w if abs(x) < 1 / 1.05]
+                if len(big) == 1 and len(small) == 1 and abs(big[0].imag) < 1e-9 and big[0].real > 0:
+                    out.append(P.tolist())
+        frontier = nxt
+    return out
+
+
+def case_fixed_integer(case):
+    from geometry_tools import hyperbolic as H
+    n, M, how = case["n"], np.array(case["M"], dtype=np.int64), case["dtype"]
+    data = M.tolist() if how == "list-int" else (tuple(tuple(r) for r in M.tolist()) if how == "tuple-int" else M.astype(how))
+    iso = H.Isometry(data)
+    act = H.Isometry(M.astype(float))
+    tag = "integer loxodromic %s of H^%d given as %s" % (M.tolist(), n, how)
+    r = _fixed_checks(H, iso, act, n, "loxodromic", case["probe"], tag)
+    for x in r["v"]:
+        x["key"] = x["key"] + "/integer-isometry/" + ("float32" if how == "float32" else "integer-dtype")
+    return r
+
+
+def fixed_integer_cases(q):
+    for n in (2, 3):
+        mats = int_isometries(n, 3 if q else 4)
+        for i, M in enumerate(mats):
+            probe = [0.1 * ((i % 5) - 2), 0.15] + [0.05] * (n - 2)
+            for how in INT_DTYPES:
+                yield {"n": n, "M": M, "dtype": how, "probe": probe}
 
 
 # ------------------------------------------------------------------------------------------
@@ -941,5 +1024,10 @@ def run(ctx):
         ctx.product("fixed-points-composite", "checks.c15:case_fixed_composite", list(fixed_composite_cases(q, seed)), chunk=4,
                     domains={"n": [2, 3, 4], "shapes": [[5], [2, 3], [1], [4]], "units": "consecutive and strided blocks of the fixed-points cases",
                              "oracle": "the single-isometry answer (decided by section fixed-points)"})
+        ic = list(fixed_integer_cases(ctx.quick))
+        ctx.product("fixed-points-integer-isometries", "checks.c15:case_fixed_integer", ic, chunk=8,
+                    domains={"n": [2, 3], "isometries": "all loxodromic products of <= %d generators of a subgroup of O(n,1)(Z) (%d matrices)" % (3 if ctx.quick else 4, len(ic) // len(INT_DTYPES)),
+                             "generators": INT_GENS, "packagings": INT_DTYPES,
+                             "oracle": "the fixed-point clauses of section fixed-points, acting with the float64 copy of the matrix"})
         ctx.product("fixed-points", "checks.c15:case_fixed", list(fixed_cases(q, seed)), chunk=16,
                     domains={"n": [2, 3, 4], "conjugators": "origin_to of P_n", "angles": ANGLES, "multipliers": LOX, "parabolic": "sl2_iso([[1,1],[0,1]]) (n=2)"})
